@@ -40,6 +40,9 @@ def setup_worker(ctx):
 
 def gen_case(rng, idx, tier):
     r = rng.random()
+    if rng.random() < 0.15:
+        from rv import bcast
+        return bcast.gen(rng, tier)
     if r < 0.55:
         names = list(AT.ATOMS)
         atom = names[idx % len(names)] if rng.random() < 0.7 else None
@@ -55,6 +58,9 @@ def gen_case(rng, idx, tier):
 
 
 def run_case(spec, ctx):
+    if spec.get('kind') == 'bcast':
+        from rv import bcast
+        return bcast.run(spec, ctx)
     mode = spec['mode']
     res = c06.run_case(spec, ctx, want_B=True)
     B = res.pop('B', None)
